@@ -46,6 +46,42 @@ def make_data(seed):
     return data
 
 
+CLASSES = ['LinearGAM', 'LogisticGAM', 'PoissonGAM', 'GammaGAM', 'InvGaussGAM', 'ExpectileGAM']
+FIT_TOL, FIT_MAX_ITER = 1e-7, 200      # tight enough that a warm-started refit and a fresh fit agree to ~1e-8 when both converge
+
+
+def make_targets(data, seed):
+    """class-appropriate targets per data set (0/1, counts, positive reals) and an exposure vector exactly representable in float32"""
+    targets, expo = {}, {}
+    for d, (X, y, w) in data.items():
+        rs = np.random.RandomState(seed * 10 + d + 5000)
+        eta = 0.5 * np.sin(3 * X[:, 0]) + 0.2 * (X[:, 1] % 10) + (X[:, 2] + d) + 0.6
+        pos = np.exp(eta) * rs.gamma(8.0, 1 / 8.0, size=len(y))
+        targets[d] = {
+            'LinearGAM': y, 'ExpectileGAM': y.copy(),
+            'LogisticGAM': (rs.rand(len(y)) < 1 / (1 + np.exp(-2 * np.sin(3 * X[:, 0]) - 0.5 * (X[:, 1] % 10) + 0.5))).astype(float),
+            'PoissonGAM': rs.poisson(np.exp(eta)).astype(float),
+            'GammaGAM': pos, 'InvGaussGAM': pos.copy(),
+        }
+        expo[d] = (1 + rs.randint(0, 4, len(y))).astype(float) / 2.0
+    return targets, expo
+
+
+def new_model(cls, terms, like=None):
+    import pygam
+    kw = dict(tol=FIT_TOL, max_iter=FIT_MAX_ITER)
+    if cls == 'ExpectileGAM' and like is not None:
+        kw['expectile'] = like.expectile          # fit_quantile changes this setting
+    return getattr(pygam, cls)(terms, **kw)
+
+
+def converged(model):
+    try:
+        return bool(model.logs_['diffs'][-1] < model.tol)
+    except Exception:
+        return False
+
+
 def knots_source(t, data):
     from pygam.utils import gen_edge_knots
     if not hasattr(t, 'edge_knots_'):
@@ -91,8 +127,10 @@ def user_terms(m):
 
 # ----------------------------------------------------------------------------- one random history
 class Hist(object):
-    def __init__(self, res, rng, data, hid):
+    def __init__(self, res, rng, data, hid, cls='LinearGAM', targets=None, expo=None):
         self.res, self.rng, self.data, self.hid = res, rng, data, hid
+        self.cls, self.targets, self.expo = cls, targets, expo
+        self.fitargs = []     # id -> dict(w=bool, e=bool): how the model's current coefficients were obtained
         self.terms = []       # id -> object
         self.specs = []       # id -> (kind, feature, lam)
         self.models = []      # id -> object
@@ -107,10 +145,17 @@ class Hist(object):
                 return i
         return None
 
+    def xyw(self, d):
+        X, y, w = self.data[d]
+        if self.targets is not None:
+            y = self.targets[d][self.cls]
+        e = self.expo[d] if self.expo is not None else None
+        return X, y, w, e
+
     def guarded(self, what, m, d, fn, query):
         """run a public call; caller arrays must be untouched; a query must leave predictions and statistics untouched"""
-        X, y, w = self.data[d]
-        before = snap([X, y, w])
+        X, y, w, e = self.xyw(d)
+        before = snap([X, y, w, e])
         model = self.models[m]
         fitted = hasattr(model, 'coef_')
         Xref = self.data[self.fitdata[m]][0] if (fitted and self.fitdata[m]) else None
@@ -121,23 +166,23 @@ class Hist(object):
             except Exception:
                 pre = None
         try:
-            with contextlib.redirect_stdout(io.StringIO()):
-                out = fn(model, X, y, w)
-        except Exception as e:
-            out = e
-        if snap([X, y, w]) != before:
-            self.res.violations.append(dict(what='%s modified the caller\'s X / y / weights arrays' % what, finding=None,
-                                            input=dict(history=self.log, call=what, model=m, data=d),
+            with contextlib.redirect_stdout(io.StringIO()), warnings_off():
+                out = fn(model, X, y, w, e)
+        except Exception as ex:
+            out = ex
+        if snap([X, y, w, e]) != before:
+            self.res.violations.append(dict(what='%s modified the caller\'s X / y / weights / exposure arrays' % what, finding=None,
+                                            input=dict(cls=self.cls, history=self.log, call=what, model=m, data=d),
                                             observed='array bytes changed', expected='bitwise unchanged'))
         if pre is not None:
             try:
                 post = (model.predict_mu(Xref).tobytes(), stats_snap(model), model.coef_.tobytes())
-            except Exception as e:
-                post = ('raised', type(e).__name__)
+            except Exception as ex:
+                post = ('raised', type(ex).__name__)
             self.res.case(('purity', self.hid, len(self.log), what))
             if post != pre:
                 self.res.violations.append(dict(what='query %s changed the fitted model\'s predictions / statistics_ / coef_' % what,
-                                                finding=None, input=dict(history=self.log, call=what, model=m, data=d),
+                                                finding=None, input=dict(cls=self.cls, history=self.log, call=what, model=m, data=d),
                                                 observed='snapshot differs', expected='bitwise unchanged'))
         return out
 
@@ -165,10 +210,11 @@ class Hist(object):
                     sigs.add(sig)
                     ids.append(i)
             ids = sorted(ids[:rng.randint(1, len(ids))])
-            self.models.append(LinearGAM(TermList(*[self.terms[i] for i in ids])))
+            self.models.append(new_model(self.cls, TermList(*[self.terms[i] for i in ids])))
             self.fitdata.append(0)
+            self.fitargs.append(dict(w=False, e=False))
             self.ops.append('(NewModel %s)' % coq_list([str(i) for i in ids]))
-            self.log.append('m%d = LinearGAM(%s)' % (nm, ' + '.join('t%d' % i for i in ids)))
+            self.log.append('m%d = %s(%s, tol=%g, max_iter=%d)' % (nm, self.cls, ' + '.join('t%d' % i for i in ids), FIT_TOL, FIT_MAX_ITER))
             return
         m = rng.randrange(nm)
         model = self.models[m]
@@ -176,47 +222,72 @@ class Hist(object):
         fitted = hasattr(model, 'coef_')
         if r < 0.55:
             use_w = rng.random() < 0.5
-            out = self.guarded('fit', m, d, lambda g, X, y, w: g.fit(X, y, weights=w if use_w else None), query=False)
+            use_e = self.cls == 'PoissonGAM' and rng.random() < 0.5
+            quant = rng.choice([0.3, 0.4, 0.6, 0.7]) if (self.cls == 'ExpectileGAM' and rng.random() < 0.35) else None
+            if quant is not None:
+                call = lambda g, X, y, w, e: g.fit_quantile(X, y, quantile=quant, max_iter=8, tol=0.05, weights=w if use_w else None)
+            elif self.cls == 'PoissonGAM':
+                call = lambda g, X, y, w, e: g.fit(X, y, exposure=e if use_e else None, weights=w if use_w else None)
+            else:
+                call = lambda g, X, y, w, e: g.fit(X, y, weights=w if use_w else None)
+            out = self.guarded('fit', m, d, call, query=False)
             if isinstance(out, Exception):
                 self.log.append('m%d.fit(data%d) raised %s' % (m, d, type(out).__name__))
                 raise RuntimeError('fit raised: %r' % out)
             self.fitdata[m] = d
+            self.fitargs[m] = dict(w=use_w, e=use_e)
             for t in user_terms(model):
                 if self.tid(t) is not None:
                     self.first_compile.setdefault(self.tid(t), (m, d))
-            self.ops.append('(Fit %d %d)' % (m, d))
-            self.log.append('m%d.fit(data%d%s)' % (m, d, ', weights' if use_w else ''))
+            self.ops.append(('(FitQuantile %d %d)' if quant is not None else '(Fit %d %d)') % (m, d))
+            self.log.append('m%d.%s(data%d%s%s%s)' % (m, 'fit_quantile' if quant is not None else 'fit', d,
+                                                     ', quantile=%g' % quant if quant is not None else '',
+                                                     ', weights' if use_w else '', ', exposure' if use_e else ''))
+            self.res.count('fit:%s%s%s' % ('fit_quantile' if quant is not None else 'fit', '+weights' if use_w else '', '+exposure' if use_e else ''))
             return
         if r < 0.80:
             if not fitted:
                 return
             dq = self.fitdata[m]
-            q = rng.choice(['predict', 'intervals', 'prediction_intervals', 'partial_dependence', 'summary', 'sample', 'loglik',
-                            'residuals', 'gridsearch_nokeep'])
-            np.random.seed(rng.randrange(1 << 30))
+            pois = self.cls == 'PoissonGAM'
             calls = {
-                'predict': ('(Predict %d)', lambda g, X, y, w: g.predict(X)),
-                'intervals': ('(Intervals %d)', lambda g, X, y, w: g.confidence_intervals(X)),
-                'prediction_intervals': ('(Intervals %d)', lambda g, X, y, w: g.prediction_intervals(X)),
-                'partial_dependence': ('(PartialDependence %d)', lambda g, X, y, w: g.partial_dependence(term=0, X=X, width=0.9)),
-                'summary': ('(Summary %d)', lambda g, X, y, w: g.summary()),
-                'sample': ('(Sample %d)', lambda g, X, y, w: g.sample(X, y, quantity='y', n_draws=2, n_bootstraps=1, weights=w)),
-                'loglik': ('(Loglik %d)', lambda g, X, y, w: g.loglikelihood(X, y, weights=w)),
-                'residuals': ('(Residuals %d)', lambda g, X, y, w: g.deviance_residuals(X, y, weights=w)),
+                'predict': ('(Predict %d)', lambda g, X, y, w, e: g.predict(X)),
+                'predict_mu': ('(Predict %d)', lambda g, X, y, w, e: g.predict_mu(X)),
+                'intervals': ('(Intervals %d)', lambda g, X, y, w, e: g.confidence_intervals(X)),
+                'partial_dependence': ('(PartialDependence %d)', lambda g, X, y, w, e: g.partial_dependence(term=0, X=X, width=0.9)),
+                'summary': ('(Summary %d)', lambda g, X, y, w, e: g.summary()),
+                'sample': ('(Sample %d)', lambda g, X, y, w, e: g.sample(X, y, quantity=rng.choice(['y', 'mu', 'coef']), n_draws=2,
+                                                                       n_bootstraps=1, weights=w)),
+                'loglik': ('(Loglik %d)', (lambda g, X, y, w, e: g.loglikelihood(X, y, exposure=e, weights=w)) if pois
+                           else (lambda g, X, y, w, e: g.loglikelihood(X, y, weights=w))),
+                'residuals': ('(Residuals %d)', lambda g, X, y, w, e: g.deviance_residuals(X, y, weights=w, scaled=rng.random() < 0.5)),
+                'score': ('(Score %d)', (lambda g, X, y, w, e: g.score(X, y)) if self.cls == 'LogisticGAM'
+                          else (lambda g, X, y, w, e: g.score(X, y, weights=w))),
                 'gridsearch_nokeep': ('(GridsearchNoKeep %d ' + str(dq) + ')',
-                                      lambda g, X, y, w: g.gridsearch(X, y, lam=np.array([0.5, 5.0]), keep_best=False, progress=False)),
+                                      (lambda g, X, y, w, e: g.gridsearch(X, y, exposure=e, weights=w, lam=np.array([0.5, 5.0]), keep_best=False,
+                                                                          progress=False)) if pois
+                                      else (lambda g, X, y, w, e: g.gridsearch(X, y, lam=np.array([0.5, 5.0]), keep_best=False, progress=False))),
             }
+            if self.cls == 'LinearGAM':
+                calls['prediction_intervals'] = ('(Intervals %d)', lambda g, X, y, w, e: g.prediction_intervals(X))
+            if self.cls == 'LogisticGAM':
+                calls['predict_proba'] = ('(PredictProba %d)', lambda g, X, y, w, e: g.predict_proba(X))
+                calls['accuracy'] = ('(Accuracy %d)', lambda g, X, y, w, e: g.accuracy(X, y))
+            if pois:
+                calls['predict_exposure'] = ('(Predict %d)', lambda g, X, y, w, e: g.predict(X, exposure=e))
+            q = rng.choice(sorted(calls))
+            np.random.seed(rng.randrange(1 << 30))
             fmt, fn = calls[q]
             self.guarded(q, m, dq, fn, query=True)
             self.ops.append(fmt % m)
             self.log.append('m%d.%s(data%d)' % (m, q, dq))
-            self.res.count('query:%s' % q)
+            self.res.count('query:%s.%s' % (self.cls, q))
             return
         if r < 0.90:
             ids_before = [id(t) for t in user_terms(model)]
             coef_before = model.coef_.copy() if fitted else None
             out = self.guarded('gridsearch(keep_best=True)', m, d,
-                               lambda g, X, y, w: g.gridsearch(X, y, lam=np.array([0.5, 5.0]), keep_best=True, progress=False),
+                               lambda g, X, y, w, e: g.gridsearch(X, y, lam=np.array([0.5, 5.0]), keep_best=True, progress=False),
                                query=False)
             if isinstance(out, Exception):
                 raise RuntimeError('gridsearch raised: %r' % out)
@@ -239,6 +310,7 @@ class Hist(object):
                 self.first_compile[len(self.terms) - 1] = (m, d if not self_best else self.fitdata[m])
             if not self_best:
                 self.fitdata[m] = d
+                self.fitargs[m] = dict(w=False, e=False)
             self.ops.append('(GridsearchKeep %d %d %s)' % (m, d, coq_bool(self_best)))
             self.log.append('m%d.gridsearch(data%d, keep_best=True)%s' % (m, d, ' [self stayed best]' if self_best else ''))
             return
@@ -248,6 +320,7 @@ class Hist(object):
             old_ids = [self.tid(t) for t in user_terms(model)]
             self.models.append(c)
             self.fitdata.append(self.fitdata[m])
+            self.fitargs.append(dict(self.fitargs[m]))
             for t, oi in zip(user_terms(c), old_ids):
                 self.terms.append(t)
                 self.specs.append(self.specs[oi])
@@ -256,9 +329,9 @@ class Hist(object):
             self.ops.append('(DeepCopy %d)' % m)
             self.log.append('m%d = %s(m%d)' % (len(self.models) - 1, via, m))
             return
-        model.set_params(max_iter=100, tol=1e-4)
+        model.set_params(max_iter=FIT_MAX_ITER, tol=FIT_TOL, verbose=False)
         self.ops.append('(SetParams %d)' % m)
-        self.log.append('m%d.set_params(max_iter=100, tol=1e-4)' % m)
+        self.log.append('m%d.set_params(max_iter=%d, tol=%g, verbose=False)' % (m, FIT_MAX_ITER, FIT_TOL))
 
     def tid_by_pyid(self, pyid):
         for i, o in enumerate(self.terms):
@@ -266,51 +339,19 @@ class Hist(object):
                 return i
         return None
 
-    def observe(self):
-        """abstract observation of every model + history-independence violations + row-wise-ness"""
-        from pygam import LinearGAM
-        from pygam.terms import TermList
-        obs = []
-        for m, model in enumerate(self.models):
-            ts = user_terms(model)
-            ids = [self.tid(t) for t in ts]
-            kn = [knots_source(t, self.data) for t in ts]
-            d = self.fitdata[m]
-            fresh_equal = False
-            if d and hasattr(model, 'coef_'):
-                X, y, w = self.data[d]
-                fresh = LinearGAM(TermList(*[new_term(*self.specs[i]) for i in ids])).fit(X, y)
-                try:
-                    p = model.predict(X)
-                    fresh_equal = bool(np.allclose(p, fresh.predict(X), rtol=1e-6, atol=1e-8))
-                except Exception:
-                    fresh_equal = False
-                self.res.case(('fresh-equal', self.hid, m), nontrivial=True)
-                self.res.count('fresh_equal:%s' % fresh_equal)
-                if not fresh_equal:
-                    # weights are not part of the abstract model: a weighted last fit is compared with a weighted fresh fit
-                    pass
-            obs.append((ids, kn, d, fresh_equal))
-        return obs
 
-
-def weights_used_last(log, m):
-    for line in reversed(log):
-        if line.startswith('m%d.fit(' % m) or line.startswith('m%d.gridsearch' % m):
-            return 'weights' in line
-    return False
-
-
-def history_cases(res, rng, count, data):
+def history_cases(res, rng, count, data, targets=None, expo=None):
     cases, meta = [], []
     for hid in range(count):
-        h = Hist(res, rng, data, hid)
+        cls = CLASSES[hid % len(CLASSES)]          # the histories are distributed evenly over the six model classes
+        h = Hist(res, rng, data, hid, cls, targets, expo)
+        res.count('history_class:%s' % cls)
         nsteps = rng.randint(6, 14)
         try:
             for _ in range(nsteps):
                 h.step()
         except Exception as e:
-            res.violations.append(dict(what='public call raised in a valid history', finding=None, input=dict(history=h.log),
+            res.violations.append(dict(what='public call raised in a valid history', finding=None, input=dict(cls=cls, history=h.log),
                                        observed='%s: %s' % (type(e).__name__, e), expected='no exception'))
             continue
         try:
@@ -323,15 +364,16 @@ def history_cases(res, rng, count, data):
                                        observed='%s: %s' % (type(e).__name__, e), expected='see coq/Model/Heap.v'))
             continue
         cobs = coq_list(['(mkObs %s %s %d %s)' % (coq_list([str(i) for i in ids]),
-                                                  coq_list(['None' if k is None else '(Some %d)' % k for k in kn]), d, coq_bool(fe))
+                                                  coq_list(['None' if k is None else '(Some %d)' % k for k in kn]), d,
+                                                  'None' if fe is None else '(Some %s)' % coq_bool(fe))
                          for ids, kn, d, fe in obs])
         cases.append('(CHist %s %s)' % (coq_list(h.ops), cobs))
-        meta.append(dict(history=h.log, observed=[dict(model=m, term_ids=o[0], knots_from=o[1], fitted_on=o[2], equals_fresh=o[3])
+        meta.append(dict(cls=cls, history=h.log, observed=[dict(model=m, term_ids=o[0], knots_from=o[1], fitted_on=o[2], equals_fresh=o[3])
                                                    for m, o in enumerate(obs)]))
         res.count('history_models:%d' % len(h.models))
         # history dependence seen on the implementation: report, tagged by the shape of the history
         for m, (ids, kn, d, fe) in enumerate(obs):
-            if d and not fe:
+            if d and fe is False:
                 reasons = set()
                 for i, k in zip(ids, kn):
                     if h.specs[i][0] == 'l' or k == d:
@@ -345,7 +387,7 @@ def history_cases(res, rng, count, data):
                         finding = FINDINGS[key]
                         break
                 res.violations.append(dict(what='a model fitted on data%d does not predict like a fresh model fitted on data%d' % (d, d),
-                                           finding=finding, input=dict(history=h.log, model=m, reasons=sorted(reasons)),
+                                           finding=finding, input=dict(cls=cls, history=h.log, model=m, reasons=sorted(reasons)),
                                            observed=dict(knots_from=kn), expected='all term state derived from data%d' % d))
         # row-wise-ness of predictions
         for m, model in enumerate(h.models):
@@ -366,30 +408,44 @@ def history_cases(res, rng, count, data):
                 res.count('rowwise query: mixed extrapolation')
             else:
                 res.count('rowwise query: training rows')
+            idx = [rng.randrange(len(Xq)) for _ in range(rng.randint(1, 9))] if rng.random() < 0.5 else rng.sample(range(len(Xq)), len(Xq))
+            eq = expo[h.fitdata[m]] if expo is not None else None
+
+            def outputs(g, Q, rows=None):
+                out = [np.asarray(g.predict_mu(Q), dtype=float), np.asarray(g.confidence_intervals(Q), dtype=float),
+                       np.asarray(g.predict(Q), dtype=float)]
+                if cls == 'LinearGAM':
+                    out.append(np.asarray(g.prediction_intervals(Q), dtype=float))
+                if cls == 'LogisticGAM':
+                    out.append(np.asarray(g.predict_proba(Q), dtype=float))
+                if cls == 'PoissonGAM' and eq is not None:
+                    out.append(np.asarray(g.predict(Q, exposure=eq if rows is None else eq[rows]), dtype=float))
+                return out
             try:
-                P = model.predict(Xq)
-                CI = model.confidence_intervals(Xq)
+                with warnings_off():
+                    full = outputs(model, Xq)
             except Exception:
                 continue
-            idx = [rng.randrange(len(Xq)) for _ in range(rng.randint(1, 9))] if rng.random() < 0.5 else rng.sample(range(len(Xq)), len(Xq))
             try:
-                P2 = model.predict(Xq[idx])
-                CI2 = model.confidence_intervals(Xq[idx])
+                with warnings_off():
+                    part = outputs(model, Xq[idx], idx)
             except Exception as e:
                 res.violations.append(dict(what='predict on a row subset raised although the full matrix was accepted', finding=None,
-                                           input=dict(history=h.log, model=m, rows=idx), observed=repr(e), expected='rows of the full prediction'))
+                                           input=dict(cls=cls, history=h.log, model=m, rows=idx), observed=repr(e), expected='rows of the full prediction'))
                 continue
             res.case(('rowwise', hid, m))
-            if not (np.allclose(P2, P[idx], rtol=1e-12, atol=1e-12) and np.allclose(CI2, CI[idx], rtol=1e-10, atol=1e-10)):
+            if not all(np.allclose(b, a[idx], rtol=1e-10, atol=1e-12, equal_nan=True) for a, b in zip(full, part)):
                 res.violations.append(dict(what='predictions are not row-wise', finding=None,
-                                           input=dict(history=h.log, model=m, rows=idx),
-                                           observed=dict(max_abs_diff=float(np.abs(P2 - P[idx]).max())), expected='rows of the full prediction'))
+                                           input=dict(cls=cls, history=h.log, model=m, rows=idx),
+                                           observed=dict(max_abs_diff=float(max(np.nanmax(np.abs(b - a[idx])) for a, b in zip(full, part)))),
+                                           expected='rows of the full prediction'))
     return cases, meta
 
 
 def observe_with_weights(h):
-    """as Hist.observe, but the fresh model gets the same weights as the model's last fit"""
-    from pygam import LinearGAM
+    """abstract observation of every model; the fresh model is of the same class, has the settings the model has NOW (a keep_best grid
+    search changes lam, fit_quantile the expectile), fresh term objects, and is fitted the way the model was last fitted (same weights /
+    exposure).  The flag is None (not compared) unless both fits report convergence."""
     from pygam.terms import TermList
     obs = []
     for m, model in enumerate(h.models):
@@ -399,37 +455,31 @@ def observe_with_weights(h):
         d = h.fitdata[m]
         fe = False
         if d and hasattr(model, 'coef_'):
-            X, y, w = h.data[d]
-            anc = m
-            used_w = last_fit_weights(h.log, m)
-            # same settings as the model has NOW (a keep_best grid search changes lam), fresh term objects
+            X, y, w, e = h.xyw(d)
             if any(i is None for i in ids):
                 obs.append((ids, kn, d, False))
                 continue
-            fresh = LinearGAM(TermList(*[new_term(h.specs[i][0], h.specs[i][1], list(t.lam), h.specs[i][3]) for i, t in zip(ids, ts)]))
-            fresh.fit(X, y, weights=w if used_w is True else None)
-            try:
-                fe = bool(np.allclose(model.predict(X), fresh.predict(X), rtol=1e-6, atol=1e-8))
-            except Exception:
-                fe = False
-            h.res.case(('fresh-equal', h.hid, m))
-            h.res.count('fresh_equal:%s' % fe)
+            fresh = new_model(h.cls, TermList(*[new_term(h.specs[i][0], h.specs[i][1], list(t.lam), h.specs[i][3]) for i, t in zip(ids, ts)]),
+                              like=model)
+            fa = h.fitargs[m]
+            with warnings_off():
+                if h.cls == 'PoissonGAM':
+                    fresh.fit(X, y, exposure=e if fa['e'] else None, weights=w if fa['w'] else None)
+                else:
+                    fresh.fit(X, y, weights=w if fa['w'] else None)
+            if not (converged(model) and converged(fresh)):
+                fe = None
+                h.res.count('fresh_equal:%s:not compared (no convergence reported)' % h.cls)
+            else:
+                try:
+                    with warnings_off():
+                        fe = bool(np.allclose(model.predict_mu(X), fresh.predict_mu(X), rtol=1e-5, atol=1e-8))
+                except Exception:
+                    fe = False
+                h.res.case(('fresh-equal', h.hid, m))
+                h.res.count('fresh_equal:%s:%s' % (h.cls, fe))
         obs.append((ids, kn, d, fe))
     return obs
-
-
-def last_fit_weights(log, m):
-    """how model m got its current coefficients: True/False = fit with/without weights, 'grid' = gridsearch keep_best;
-    follows deepcopy / pickle ancestry"""
-    cur = m
-    for line in reversed(log):
-        if line.startswith('m%d.fit(' % cur):
-            return 'weights' in line
-        if line.startswith('m%d.gridsearch(' % cur) and 'keep_best=True' in line and 'self stayed best' not in line:
-            return 'grid'
-        if line.startswith('m%d = deepcopy(m' % cur) or line.startswith('m%d = pickle(m' % cur):
-            cur = int(line.split('(m')[1].rstrip(')'))
-    return False
 
 
 @contextlib.contextmanager
@@ -590,15 +640,19 @@ def direct_probes(res, data):
 def run(res):
     rng = common.rng_for(res.seed, PROP)
     quick = res.tier == 'quick'
-    res.rule = ('random call histories (6-14 steps) over up to 5 term objects (spline / factor / linear), up to 5 LinearGAM models built '
-                'from overlapping subsets of the SAME term objects, three data sets with distinct ranges / category codes: fit (with or '
-                'without weights), predict, confidence/prediction intervals, partial_dependence, summary, sample, loglikelihood, '
-                'deviance_residuals, gridsearch keep_best on/off, deepcopy, pickle, set_params -- executed on real models and on the Coq '
-                'heap machine; compared per model: identity graph of term objects, which data set each term\'s edge knots / categories '
-                'come from, fitted data set, "predicts like a fresh model fitted the same way" (rtol 1e-6). Around every call the '
-                'caller\'s X / y / weights are compared bitwise; around every query predict_mu(X_ref), statistics_ and coef_ are '
-                'compared bitwise; predictions / intervals on random row subsets and permutations must equal the rows of the full '
-                'result. A history is non-trivial when it contains a fit; all generated histories do.')
+    res.rule = ('random call histories (6-14 steps), distributed evenly over the six model classes LinearGAM, LogisticGAM, PoissonGAM, GammaGAM, '
+                'InvGaussGAM, ExpectileGAM (class-appropriate targets per data set: reals, 0/1, counts, positive reals; tol=1e-7, max_iter=200), '
+                'over up to 5 term objects (spline / factor / linear) and up to 5 models built from overlapping subsets of the SAME term '
+                'objects, three data sets with distinct ranges / category codes: fit (with or without weights; PoissonGAM with or without '
+                'exposure; ExpectileGAM also fit_quantile), predict, predict_mu, confidence intervals, partial_dependence, summary, sample, '
+                'loglikelihood (with exposure for PoissonGAM), deviance_residuals, score, class-specific queries (prediction_intervals, '
+                'predict_proba, accuracy, predict with exposure), gridsearch keep_best on/off, deepcopy, pickle, set_params -- executed on real '
+                'models and on the Coq heap machine; compared per model: identity graph of term objects, which data set each term\'s edge '
+                'knots / categories come from, fitted data set, "predicts like a fresh model of the same class and current settings fitted the '
+                'same way" (rtol 1e-5, only when both fits report convergence; the rest is counted). Around every call the caller\'s '
+                'X / y / weights / exposure are compared bitwise; around every query predict_mu(X_ref), statistics_ and coef_ are compared '
+                'bitwise; predictions / intervals / class-specific predictions on random row subsets and permutations must equal the rows of '
+                'the full result. A history is non-trivial when it contains a fit; all generated histories do.')
     common.standard_prove(res, PROPS_FILE)
     data = make_data(res.seed % 1000)
     try:
@@ -609,7 +663,8 @@ def run(res):
                                         'another model was fitted with, refit on other data, or keep_best grid search)', finding=None,
                                    input=dict(probe='harness/props/c15.py direct_probes', trace=traceback.format_exc()[-600:]),
                                    observed='%s: %s' % (type(e).__name__, e), expected='no exception'))
-    cases, meta = history_cases(res, rng, 350 if quick else 4000, data)
+    targets, expo = make_targets(data, res.seed % 1000)
+    cases, meta = history_cases(res, rng, 354 if quick else 4002, data, targets, expo)
     with common.CaseDir(PROP) as cd:
         failing, errors = common.run_bool_cases(cd, HEADER, cases, 'check_case', shard=60)
     for name, out in errors:
@@ -625,10 +680,11 @@ def run(res):
                                    observed='observation differs', expected='see coq/Model/Heap.v'))
     res.extra['correspondence_cases'] = len(cases)
     res.extra['tolerances'] = {'caller arrays, predict_mu / statistics_ / coef_ around queries': 'bitwise',
-                               'prediction equals fresh model': 'rtol 1e-6 (warm start changes the PIRLS path, not the optimum)',
-                               'row-wise predictions': '1e-12'}
+                               'prediction equals fresh model': 'rtol 1e-5, atol 1e-8, compared only when the model and the fresh model report convergence (tol 1e-7): warm start changes the PIRLS path, not the optimum',
+                               'row-wise predictions': 'rtol 1e-10, atol 1e-12'}
     res.trusted.append('hand-written heap machine coq/Model/Heap.v (term objects by reference, compile in place), validated by '
-                       'correspondence on random histories; only LinearGAM histories; pickle / deepcopy are modelled as copies')
+                       'correspondence on random histories of all six model classes (the machine does not inspect the family); pickle / deepcopy are '
+                       'modelled as copies')
 
 
 def replay(res, rp):
